@@ -978,10 +978,11 @@ fn main() {
             }
         }
     }
+    let mut all_fails: Vec<serde_json::Value> = vec![];
     for gc in &all {
         let (c, _, fails) = run_case(gc, &mut stats, None);
         cw.push(c);
-        for f in fails { stats.monitor_fail(f); }
+        all_fails.extend(fails);
     }
     let mut root = Prng::new(a.seed);
     for k in 0..a.cases {
@@ -989,7 +990,18 @@ fn main() {
         let gc = GCase { sectors_max: if r.chance(25) { 1 + r.below(2) } else { 0 }, ops: vec![] };
         let (c, _, fails) = run_case(&gc, &mut stats, Some((&mut r, a.len)));
         cw.push(c);
-        for f in fails { stats.monitor_fail(f); }
+        all_fails.extend(fails);
     }
+    // Stats keeps at most 20 monitor failures: report every class once, unknown classes first, so that the
+    // (expected, known) F1 reports of every case cannot crowd out anything else
+    let mut per_class: BTreeMap<String, usize> = BTreeMap::new();
+    all_fails.sort_by_key(|f| f["class"].as_str().map(|c| c.starts_with("F1-")).unwrap_or(false));
+    for f in all_fails {
+        let c = f["class"].as_str().unwrap_or("?").to_string();
+        let n = per_class.entry(c.clone()).or_insert(0);
+        *n += 1;
+        if *n <= 2 { stats.monitor_fail(f); }
+    }
+    stats.extra.insert("monitor_failures_per_class".into(), json!(per_class));
     cw.finish(&stats, "collateral");
 }
